@@ -191,6 +191,29 @@ def rule_statement_depth(chk: Check, ix: Index):
                         f"longer parse as they do alone")
 
 
+def rule_capture_stays_in_block(chk: Check, ix: Index):
+    """The indented with-macro body ends where its block ends.  The scanner reports the blank and comment-only lines that follow a
+    block (NL / COMMENT tokens) *before* the DEDENT of the next real line, so a capture loop that records every token up to the
+    closing DEDENT also records the layout lines that stand between the block and the next statement — lines of the text after the
+    construct.  Such lines may be recorded only provisionally (the loop has to tell NL / COMMENT tokens from the others)."""
+    f = ix.funcs.get("Tokenizer.consume_with_macro_params")
+    chk.count("N7-capture-stays-in-block")
+    if f is None:
+        chk.undecided("N7-capture-stays-in-block", "consume_with_macro_params:trailing-layout-lines", repo.TOKENIZER,
+                      "the with-macro capture is not found under its name")
+        return
+    loops = [n for n in own_nodes(f.node) if isinstance(n, ast.For) and "_tokengen" in norm_stmt(n.iter)]
+    if not loops:
+        chk.undecided("N7-capture-stays-in-block", "consume_with_macro_params:trailing-layout-lines", f.where, "no loop over the raw stream")
+        return
+    told_apart = any(isinstance(n, ast.Attribute) and norm_stmt(n) in ("Token.NL", "Token.COMMENT") for lp in loops for n in ast.walk(lp))
+    ends_at_dedent = any(isinstance(n, ast.Attribute) and norm_stmt(n) == "Token.DEDENT" for lp in loops for n in ast.walk(lp))
+    chk.require(told_apart or not ends_at_dedent, "N7-capture-stays-in-block", "consume_with_macro_params:trailing-layout-lines", f.where,
+                "the capture of an indented body runs to the closing DEDENT and records every token on the way, the blank and comment-only "
+                "lines after the block included (the scanner emits them before the DEDENT): `with! c:⏎    a b⏎` followed by `# hi⏎x = 1⏎` "
+                "has the body '    a b\\n# hi\\n', alone 'a b\\n'")
+
+
 def rule_n1(chk: Check, ir):
     f = ir.rules.get("file")
     s = ir.rules.get("statements")
@@ -267,6 +290,7 @@ def run(chk: Check):
     rule_counter(chk, ix)
     rule_newline_neutral(chk, ix)
     rule_statement_depth(chk, ix)
+    rule_capture_stays_in_block(chk, ix)
     # the text handed to the scanner is the caller's text: a normalisation of the end of the input (stripping blanks or empty lines)
     # applies to a part parsed alone and not to the same part in front of another one — raw-text captures then differ
     from .c12 import rule_source_verbatim
